@@ -251,65 +251,13 @@ def r09e(ctx, rep, cr):
                 rep.holds('R09e', f, callee, 'on every exit after the phase check')
 
 
-def _locks_calls(f, defs, meth_re):
-    out = []
-    for c in A.calls(f):
-        if not re.search(r'HashMap::<K, V, S, A>::(%s)$' % meth_re, c.generic) or not c.args or c.args[0][0] == 'k':
-            continue
-        fs = A.place_fields(c.args[0][1])
-        if not fs:
-            fs, _ = A.origin_fields(f, c.args[0][1][0], defs)
-        if any(x.endswith('RowLockManager.locks') for x in fs):
-            out.append(c)
-    return out
-
-
 def r09g(ctx, rep, cr):
     rep.rule('R09g', 'only the holder releases: every removal from RowLockManager.locks is reachable only through the true edge of a '
                      'comparison RowLock.tx_id == <the releasing transaction> (an expired lock may have been taken over by another '
-                     'transaction while its key is still in the old holder\'s list), or removes keys selected by RowLock::is_expired '
-                     '(the expiry sweep); clear/retain on the table are not used')
-    n = 0
-    for name, f in sorted(cr.fns.items()):
-        if not name.startswith(TM):
-            continue
-        defs = A.Defs(f)
-        rm = _locks_calls(f, defs, 'remove|retain|clear|drain|remove_entry')
-        if not rm:
-            continue
-        rep.analysed(f)
-        for k, c in enumerate(rm):
-            n += 1
-            how = None
-            for (a, s_) in A.must_pass_edges(f, c.bb):
-                l = lib.switch_local(f, a)
-                d = A.single_def(defs, l) if l is not None else None
-                if not d or d[2] != 'st' or d[3][1][0] != 'bin' or d[3][1][1] not in ('Eq', 'Ne'):
-                    continue
-                t = f.bbs[a]['t']
-                if not all(v == '0' for v, _ in t[2]):
-                    continue
-                taken_nonzero = (s_ == t[3])
-                want_nonzero = d[3][1][1] == 'Eq'
-                sides = [A.backward_slice(f, [d[3][1][i]], defs) for i in (2, 3)]
-                has_owner = any(any(x.endswith('RowLock.tx_id') for x in sl.fields) for sl in sides)
-                has_param = any(sl.params for sl in sides)
-                if has_owner and has_param and taken_nonzero == want_nonzero:
-                    how = 'behind RowLock.tx_id == tx_id'
-            if how is None and c.generic.endswith('::remove'):
-                # expiry sweep: the key comes out of a filter over the table whose closure calls is_expired
-                sl = A.backward_slice(f, [c.args[1]], defs)
-                if any(re.search(r'Iterator::filter$|Iterator>::filter$', x) for x in sl.calls):
-                    for h in A.with_closures(cr.fns, f.name):
-                        if h.name != f.name and A.calls_to(h, ('re', r'RowLock::is_expired$')):
-                            how = 'keys selected by is_expired'
-            if how:
-                rep.holds('R09g', f, 'remove#%d' % k, how)
-            else:
-                rep.violation('R09g', f, 'unowned-release', f.loc(c.line),
-                              'a row lock is removed from the table without checking that the releasing transaction still holds it: after '
-                              'an expired lock was taken over (try_lock overwrites it but the key stays in the old holder\'s list), the old '
-                              'holder\'s commit/rollback deletes the new holder\'s live lock and a third transaction can modify the row')
+                     'transaction while its key is still in the old holder\'s list), or removes keys selected from the table itself in the '
+                     'same critical section (the expiry sweep); clear/retain on the table are not used')
+    fns = {n: f for n, f in cr.fns.items() if n.startswith(TM)}
+    n = lib.holder_only_release(rep, 'R09g', fns, 'RowLockManager.locks', 'RowLock.tx_id', 'row lock')
     rep.floor('R09g', 'removals from RowLockManager.locks', n, 2)
 
 
